@@ -17,6 +17,8 @@ inductive AEv where
   | lockK | deferUnlockK | readKnown | cloneIndex | compute | returnErr | writeKnown
   | lockT | writeIndex | unlockT | returnOk | unlockK
   | rlockT | deferRUnlockT | search | runlockT
+  | acquireT                         -- machine only: the blocking half of `Lock()` on `$T` (after the announcement)
+  | panic                            -- machine only: the call made at this point panics
   | readIndex | passKnown            -- dropped when made under the lock that protects the field
   | openIf | openBlock | close       -- block structure of the source
   | earlyOk                          -- a conditional `return nil`
@@ -151,24 +153,53 @@ def readerProtocol : List AEv := [.rlockT, .deferRUnlockT, .search, .returnOk]
 def writerEdges : List (WPc × AEv × WPc) :=
   [(.idle, .lockK, .locked), (.locked, .readKnown, .readK), (.readK, .cloneIndex, .cloned),
    (.cloned, .compute, .computed), (.cloned, .returnErr, .failed), (.failed, .unlockK, .doneFail),
-   (.computed, .writeKnown, .knownWritten), (.knownWritten, .lockT, .rwHeld), (.rwHeld, .writeIndex, .indexWritten),
-   (.indexWritten, .unlockT, .rwReleased), (.rwReleased, .unlockK, .doneOk)]
+   (.computed, .writeKnown, .knownWritten), (.knownWritten, .lockT, .rwWaiting), (.rwWaiting, .acquireT, .rwHeld),
+   (.rwHeld, .writeIndex, .indexWritten), (.indexWritten, .unlockT, .rwReleased), (.rwReleased, .unlockK, .doneOk),
+   (.readK, .panic, .crashed), (.cloned, .panic, .crashed)]
 
 def readerEdges : List (RPc × AEv × RPc) :=
-  [(.idle, .rlockT, .rHeld), (.rHeld, .search, .searched), (.searched, .runlockT, .done)]
+  [(.idle, .rlockT, .rHeld), (.rHeld, .search, .searched), (.searched, .runlockT, .done), (.rHeld, .panic, .crashed)]
 
 /-- the source-level protocol the edges stand for: the deferred unlock is registered after the lock and runs at
-    either exit (`unlockK` edges), protected reads are not listed -/
+    either exit (`unlockK` edges), protected reads are not listed; `Lock()` on `$T` is two machine steps (announce,
+    acquire); a panic is no event of the source -/
 def edgesAsProtocol : List AEv :=
   let evs : List AEv := writerEdges.map (·.2.1)
-  let evs : List AEv := evs.filter (fun e => e ≠ AEv.readKnown ∧ e ≠ AEv.unlockK)
+  let evs : List AEv := evs.filter (fun e => e ≠ AEv.readKnown ∧ e ≠ AEv.unlockK ∧ e ≠ AEv.acquireT ∧ e ≠ AEv.panic)
   match evs with
   | AEv.lockK :: rest => AEv.lockK :: AEv.deferUnlockK :: rest ++ [AEv.returnOk]
   | l => l
 
 def readerEdgesAsProtocol : List AEv :=
-  match (readerEdges.map (·.2.1) : List AEv) with
+  match ((readerEdges.map (·.2.1)).filter (fun e => e ≠ AEv.panic) : List AEv) with
   | [AEv.rlockT, AEv.search, AEv.runlockT] => [AEv.rlockT, AEv.deferRUnlockT, AEv.search, AEv.returnOk]
   | l => l
+
+/-! ## The release discipline of the source
+
+Whether a lock survives a panic of the calls made under it is decided by *how* it is released.  `disciplineOf` reads
+that off the raw event lists: the read lock of `FindRule` / `knownRulesMutex` in every writer method is released by
+a deferred unlock iff every lock event is directly followed by the matching `defer` event and the method contains no
+explicit unlock of that mutex.  (`rulesTreeMutex.Lock()` … `Unlock()` of the writers is explicit in the source; the
+protocol obligation admits nothing but the pointer assignment between the two, which cannot panic — the machine has
+no panicking step there.) -/
+
+/-- every `lock` event is immediately followed by `deferred`, `explicit` does not occur -/
+def deferredAfter (lock deferred explicit : String) : List String → Bool
+  | [] => true
+  | e :: rest =>
+    if e = explicit then false
+    else if e = lock then rest.head? = some deferred && deferredAfter lock deferred explicit rest
+    else deferredAfter lock deferred explicit rest
+
+def writerMethods : List String := ["AddRuleSet", "UpdateRuleSet", "DeleteRuleSet"]
+
+def disciplineOf (p : List (String × List String)) : Discipline where
+  readerDeferred :=
+    let l := lookupMethod p "FindRule"
+    l.contains "rlock $T" && deferredAfter "rlock $T" "defer runlock $T" "runlock $T" l
+  writerDeferred := writerMethods.all fun m =>
+    let l := lookupMethod p m
+    l.contains "lock $K" && deferredAfter "lock $K" "defer unlock $K" "unlock $K" l
 
 end Heimdall.Conc
